@@ -39,9 +39,9 @@ struct skiplist_node {
 	const char *key;
 	void *value;
 	/* special meaning when lower than SKIPLIST_LEVEL_MIN:
-	   indication that @skiplist_node_destroy() needs to skip
-	   disposing node->forward (unless it is the termination
-	   of the whole list) */
+	   the node has been removed from the list (it only stays
+	   allocated while iterators are positioned on it) and its
+	   forward pointers are no longer maintained */
 	int8_t level;
 	uint32_t refcount;
 	struct qb_list_head notifier_head;
@@ -54,10 +54,6 @@ struct skiplist {
 	struct qb_map map;
 
 	size_t length;
-	/* special meaning when lower than SKIPLIST_LEVEL_MIN:
-	   indication that @skiplist_node_destroy() is the terminating
-	   one (triggered with @skiplist_destroy()), therefore node->forward
-	   needs to be free'd unconditionally */
 	int8_t level;
 	struct skiplist_node *header;
 };
@@ -121,10 +117,7 @@ skiplist_node_new(const int8_t level, const char *key, const void *value)
 	new_node->refcount = 1;
 	qb_list_init(&new_node->notifier_head);
 
-	/* A level 0 node still needs to hold 1 forward pointer, etc.;
-	   instead of "level + 1", we need to capture whole possible
-	   width because of forward-member-resilience-upon-entry-removal
-	   arrangment based on takeover-and-repoint. */
+	/* A level 0 node still needs to hold 1 forward pointer, etc. */
 	new_node->forward = (struct skiplist_node **)
 	    (calloc(SKIPLIST_LEVEL_MAX + 1, sizeof(struct skiplist_node *)));
 
@@ -193,6 +186,24 @@ skiplist_lookup(struct skiplist *list, const char *key)
 	return NULL;
 }
 
+/*
+ * The first node with a key greater than @key (NULL if there is none).
+ */
+static struct skiplist_node *
+skiplist_lookup_after(struct skiplist *list, const char *key)
+{
+	struct skiplist_node *cur_node = list->header;
+	int8_t level;
+
+	for (level = list->level; level >= SKIPLIST_LEVEL_MIN; level--) {
+		while (cur_node->forward[level] &&
+		       strcmp(cur_node->forward[level]->key, key) <= 0) {
+			cur_node = cur_node->forward[level];
+		}
+	}
+	return cur_node->forward[SKIPLIST_LEVEL_MIN];
+}
+
 static void
 skiplist_notify(struct skiplist *l, struct skiplist_node *n,
 		uint32_t event, char *key, void *old_value, void *value)
@@ -248,10 +259,7 @@ skiplist_node_destroy(struct skiplist_node *node, struct skiplist *list)
 		free(tn);
 	}
 
-	if (node->level >= SKIPLIST_LEVEL_MIN
-	    || list->level < SKIPLIST_LEVEL_MIN) {
-		free(node->forward);
-	}
+	free(node->forward);
 	free(node);
 }
 
@@ -369,7 +377,6 @@ skiplist_destroy(struct qb_map *map)
 	struct skiplist_node *cur_node;
 	struct skiplist_node *fwd_node;
 
-	list->level = SKIPLIST_LEVEL_MIN - 1;  /* indicate teardown */
 	for (cur_node = skiplist_node_next(list->header);
 	     cur_node; cur_node = fwd_node) {
 		fwd_node = skiplist_node_next(cur_node);
@@ -483,37 +490,12 @@ skiplist_rm(struct qb_map *map, const char *key)
 		}
 	}
 
-	/* If @found_node is referenced more than once, it means that it is
-	   currently positioned with one or more iterators, therefore it's
-	   likely that @qb_map_iter_next() will be called at least once so
-	   as to progress pass this @found_node.  The problem is, original
-	   @found_node->forward may have become referencing successfully
-	   destroyed original successor by the time the progress of such
-	   iterator(s) resumes, possibly causing use-after-free in
-	   @skiplist_node_next().
-
-	   To solve this, we will grab @cur_node->forward, which has just
-	   been updated accordingly in the above statement, copying it
-	   to @found_node->forward, and repointing @cur_node->forward to
-	   point to @found_node's copy (freeing its original list first).
-	   To prevent freeing the pointed memory behind @cur_node's
-	   back from the @found_node's context, we use the fact that the
-	   iterator can only advance to the next node, without re-examination
-	   of the current one, hence we can afford to abuse @found_node->value
-	   as a flag field when set to our private "special" value that under
-	   no normal circumstance can appear (for being link-time singleton).
-
-	   In addition, we have to special-case the beginning of the list
-	   (header) preceding @found_node, which can be distinguished with
-	   NULL being used as a key (second allowing condition below). */
-	if (found_node->refcount > 1 || cur_node->key == NULL) {
-		for (level = SKIPLIST_LEVEL_MIN; level <= found_node->level; level++) {
-			found_node->forward[level] = cur_node->forward[level];
-		}
-		found_node->level = SKIPLIST_LEVEL_MIN - 1;  /* no "forward" drop */
-		free(cur_node->forward);
-		cur_node->forward = found_node->forward;
-	}
+	/* @found_node may stay allocated for a while, when iterators are
+	   positioned on it.  Its forward pointers are not updated by later
+	   insertions and removals (the successor they name may even be
+	   destroyed by then), so mark the node as removed:
+	   @skiplist_iter_next() then finds the successor by key instead. */
+	found_node->level = SKIPLIST_LEVEL_MIN - 1;
 	skiplist_node_deref(found_node, list);
 
 	/* Remove unused levels from @list -- stop removing levels as soon as a
@@ -567,7 +549,12 @@ skiplist_iter_next(qb_map_iter_t * i, void **value)
 	if (p == NULL) {
 		return NULL;
 	}
-	si->n = skiplist_node_next(p);
+	if (p->level < SKIPLIST_LEVEL_MIN) {
+		/* @p was removed while we were positioned on it */
+		si->n = skiplist_lookup_after((struct skiplist *)i->m, p->key);
+	} else {
+		si->n = skiplist_node_next(p);
+	}
 	if (si->n == NULL) {
 		skiplist_node_deref(p, (struct skiplist *)i->m);
 		return NULL;
